@@ -1,5 +1,5 @@
 From Coq Require Import ZArith List Bool Lia.
-From V Require Import Csv.CsvModel Csv.CsvProofs Mgr.Archive Mgr.ArchiveProofs Mgr.Chain.
+From V Require Import Csv.CsvModel Csv.CsvProofs Data.DataModel Mgr.Archive Mgr.ArchiveProofs Mgr.Chain.
 Import ListNotations.
 Open Scope Z_scope.
 
@@ -55,3 +55,40 @@ Section RefsProofs.
     - destruct (k =? g); [reflexivity|exact IH].
   Qed.
 End RefsProofs.
+
+
+(** a results reference used as a file name replays exactly the referenced member's collected lines; a chain run over it is the
+    chain over those lines: its first member and every member without source-mode: preceding read the referenced lines, a preceding
+    member reads its predecessor's *)
+Theorem replay_is_collected c : no_cr c -> c <> [] -> replay_input c = Some c.
+Proof. exact (read_data_csv c). Qed.
+
+Theorem replay_chain_composes c ss : no_cr c -> c <> [] -> Forall well_behaved ss ->
+  replay_chain c ss = Collected (compose_from c None ss).
+Proof. intros Hn Hne Hw. unfold replay_chain. rewrite (replay_is_collected c Hn Hne). apply chain_composes; assumption. Qed.
+
+Theorem replay_empty_refuted : replay_chain [] [mkStage false (fun i => i)] = NoDataFile [].
+Proof. reflexivity. Qed.
+
+(** a header reference is the column #h of the referenced member's collected lines: the values the header h reads on each
+    of them (Data/DataModel.value_by_name, i.e. Header.to_value), lines too short for it left out, in order *)
+Definition somes {A} (l : list (option A)) : list A := flat_map (fun o => match o with Some a => [a] | None => [] end) l.
+
+Theorem header_ref_is_column hs h collected vs : header_ref hs h collected = Some vs ->
+  vs = somes (map (value_by_name hs h) collected).
+Proof.
+  unfold header_ref, value_by_name. destruct (header_index h hs) as [i|]; [|discriminate].
+  intros H. injection H as <-. unfold somes, value_by_index.
+  induction collected as [|l ls IH]; [reflexivity|]. cbn [flat_map map]. rewrite IH.
+  destruct (nth_error l i); reflexivity.
+Qed.
+
+Theorem header_ref_unknown hs h collected : header_index h hs = None -> header_ref hs h collected = None.
+Proof. intros H. unfold header_ref. rewrite H. reflexivity. Qed.
+
+Theorem header_ref_length hs h collected vs : header_ref hs h collected = Some vs -> (length vs <= length collected)%nat.
+Proof.
+  unfold header_ref. destruct (header_index h hs) as [i|]; [|discriminate]. intros H. injection H as <-.
+  induction collected as [|l ls IH]; [cbn; lia|]. cbn [flat_map]. rewrite app_length. cbn [length].
+  destruct (nth_error l i); cbn [length]; lia.
+Qed.
